@@ -360,3 +360,23 @@ Proof.
            (NonVacuity.w_expr _ _ _ _ _ _ _ W) Hin (or_intror NonVacuity.W2m_K4) Hs).
 Qed.
 Print Assumptions C01_nonvacuous.
+
+(* CLOSED BUILD (Proofs/ClosedBuild.v): no free self-check input and no "if it returns" -- the model with
+   the self-check computed inside RETURNS a pattern, the parser model accepts it and it matches every test
+   case; trie widening included.  PARTIAL in the sense of Props/C08.v C08_selfcheck_admissible_partial:
+   non-verbose mode, candidate without raw VT/FF, case-sensitive. *)
+From Grex Require Proofs.ClosedBuild Proofs.SelfCheckTotal Model.SelfCheck.
+Theorem C01_closed_build_total_sound_partial : forall isd is_ws,
+  ColourStripBase.digit_ok isd -> ws_ok is_ws ->
+  forall c db ws,
+    let tcs := normalise c db ws in
+    let cls := grapheme_clusters c db tcs in
+    f_ci c = false ->
+    ws <> [] -> Forall (Forall scalar) ws -> oracle_ok db tcs ->
+    printable c -> f_verbose c = false ->
+    (forall e1, SelfCheckTotal.cand1 c cls = Some e1 -> SelfCheckTotal.no_vf (SelfCheck.cand_str isd c e1)) ->
+    exists s fl r, SelfCheck.build_closed isd is_ws c db ws = Some s
+      /\ parse is_ws s = Some (fl, r) /\ fl_i fl = false /\ fl_x fl = false
+      /\ forall t, In t ws -> (t <> [] \/ K4 tcs = false) -> L_rast lit_cs cls_engine r t.
+Proof. exact ClosedBuild.closed_build_total_sound. Qed.
+Print Assumptions C01_closed_build_total_sound_partial.
